@@ -5,6 +5,9 @@ import JSight.RenderLine
 import JSight.ValidatePosBytes
 import JSight.ValidatePosShape
 import JSight.SchemaErrExamples
+import JSight.SchemaViableFalse
+import JSight.SchemaTokViableExamples
+import JSight.SchemaErrWindowNext
 import JSight.SchemaViable
 /-!
 # C17 — Errors point at the offending byte and render correctly
@@ -215,7 +218,8 @@ theorem C17_schema_error_window (bs : List UInt8) (e : SchemaScan.Err) (h : Sche
     SchemaScan.scanAll (bs.take (e.idx + 1 + 2) ++ ext) = .error e :=
   SchemaScan.scanAll_error_window bs e h he hw ext
 
-/-- The EXACT window (not proved; checked operationally by `c17-schema-viable`): `w = 1` for the error "after first #"
+/-- The EXACT window (PROVED at the end of this file: `C17_schema_error_exact_window`; also checked operationally by
+`c17-schema-viable`): `w = 1` for the error "after first #"
 (`##` must be followed by a third `#`), `w = 0` for every other error — the bytes up to the offending one decide, plus,
 for `##`, the fact that the next byte is not `#`. -/
 def C17_schema_error_exact_window_full : Prop :=
@@ -233,9 +237,10 @@ example (ext : List UInt8) : SchemaScan.scanAll ([35, 35, 120, 121] ++ ext) = .e
 It is false as it stands: after a user comment inside the object of an INLINE annotation the scanner forgets the
 annotation (`[1 //{#c\n}` followed by any byte is rejected at that byte, although no byte could be accepted from the
 `#` on; real library: 301 at offset 10 for `[1 //{#c\\n}]`, 303 for the bare prefix, while at root level `1 //{#c\\n}` IS
-accepted) — known-finding class `K-C17-comment-in-inline-annotation` of `c17-schema-viable`. Neither a `_partial` theorem
-(class excluded) nor the Lean refutation on the witness is proved yet: the witness is replayed on the model (driver
-`sviable`) and on the real scanner. Outside that class the
+accepted) — known-finding class `K-C17-comment-in-inline-annotation` of `c17-schema-viable`. The Lean refutation on the
+witness (`C17_schema_error_prefix_viable_full_false`) and the proved part (`C17_schema_error_prefix_viable_partial`,
+`C17_token_level_viable`: errors at token boundaries) are at the end of this file; the witness is also replayed on the
+model (driver `sviable`) and on the real scanner. Outside that class the
 completion `SchemaScan.completion` (close the open token, then the lexeme stack from the top, following the return
 stack through annotations and comments) is accepted by the model and by the real scanner on every generated case. -/
 def C17_schema_error_prefix_viable_full : Prop :=
@@ -277,8 +282,8 @@ theorem C17_schema_prefix_of_accepted_partial (t : List UInt8) (evs : List Schem
     (e.isEOF = false ∧ (t.take n).length < e.idx + 3 ∧ e.idx < (t.take n).length) :=
   SchemaScan.scanAll_prefix_of_accepted t evs ht n e h
 
-/-- full statement of (3) for any cut (follows from `C17_schema_error_exact_window_full`; not proved): the position is
-the last byte -/
+/-- full statement of (3) for any cut (follows from the exact window; PROVED at the end of this file:
+`C17_schema_prefix_of_accepted`): the position is the last byte -/
 def C17_schema_prefix_of_accepted_full : Prop :=
   ∀ (t : List UInt8) (evs : List SchemaScan.Ev), SchemaScan.scanAll t = .ok evs → ∀ (n : Nat) (e : SchemaScan.Err),
     SchemaScan.scanAll (t.take n) = .error e → e.idx = (t.take n).length - 1
@@ -297,3 +302,135 @@ end Props.C17
 #print axioms Props.C17.C17_schema_eof_error_tokens
 #print axioms Props.C17.C17_schema_eof_error_string
 #print axioms Props.C17.C17_schema_prefix_of_accepted_partial
+
+/-! ## Schema scanner, second part: the refuted viability statement, viability on the token level, the exact window -/
+namespace Props.C17
+section schema2
+
+/-- **C17 (2) is FALSE as it stands** (known-finding class K-C17-comment-in-inline-annotation; regression witness
+`[1 //{#c\n}]`, replayed on the real library by `c17-schema-viable`): the model reports the witness at offset 10 ("at the
+end of value"), but no continuation of the ten bytes before it is accepted — a user comment inside the object of an
+INLINE annotation resets the annotation mode, the object is closed as an ordinary value and the scanner is left in
+`stateEndValue` over the inline-annotation marker, where every byte is rejected and the end of input is "unexpected". -/
+theorem C17_schema_error_prefix_viable_full_false : ¬ C17_schema_error_prefix_viable_full := fun h =>
+  let ⟨ext, evs, hok⟩ := h SchemaScan.ViableFalse.witness _ SchemaScan.ViableFalse.witness_error rfl
+  SchemaScan.ViableFalse.prefix_dead ext evs hok
+
+/-- the two halves of the refutation: the witness is reported at offset 10, and `[1 //{#c\n}` ++ anything is rejected -/
+theorem C17_schema_witness_reported_at_10 :
+    SchemaScan.scanAll [91, 49, 32, 47, 47, 123, 35, 99, 10, 125, 93] = .error (.invalidChar 10 "at the end of value") :=
+  SchemaScan.ViableFalse.witness_error
+theorem C17_schema_witness_prefix_dead (ext : List UInt8) (evs : List SchemaScan.Ev) :
+    SchemaScan.scanAll ([91, 49, 32, 47, 47, 123, 35, 99, 10, 125] ++ ext) ≠ .ok evs :=
+  SchemaScan.ViableFalse.prefix_dead ext evs
+
+/-- **C17 (2) on the token level — "whatever has been accepted so far can be completed".** Token grammar of the schema
+text (`ATok`: blanks, line breaks, `#` comments, inline `// {…} - note` and multi-line `/* {…} - note */` annotations,
+scalars, keys, brackets, separators) and its scanner `arun` (which the byte-level model follows: `asim_run`): for every
+token list accepted from the initial state, the closing tokens `closers c'` of the state reached — `1` / `"a":1` / `:1` for
+what the step function waits for, then `}` / `]` (and `:1` behind an open key) for what is on the lexeme stack, from the
+top — are well-formed, are accepted behind it, and leave the scanner in a complete state. -/
+theorem C17_token_level_viable (toks : List SchemaScan.Len.ATok) (hw : ∀ t ∈ toks, t.WF) (c' : SchemaScan.Len.TC)
+    (evs : List SchemaScan.Ev) (h : SchemaScan.Len.arun SchemaScan.Len.TC.init toks = some (c', evs)) :
+    (∀ t ∈ SchemaScan.Len.closers c', t.WF) ∧
+    ∃ c'' evs', SchemaScan.Len.arun SchemaScan.Len.TC.init (toks ++ (SchemaScan.Len.closers c').map .base)
+        = some (c'', evs ++ evs') ∧ SchemaScan.Len.Complete c'' :=
+  SchemaScan.Len.arun_viable toks hw c' evs h
+
+/-- the same for the token grammar without multi-line annotations (`trun`) -/
+theorem C17_token_level_viable_trun (toks : List SchemaScan.Len.Tok) (hw : ∀ t ∈ toks, t.WF) (c' : SchemaScan.Len.TC)
+    (evs : List SchemaScan.Ev) (h : SchemaScan.Len.trun SchemaScan.Len.TC.init toks = some (c', evs)) :
+    (∀ t ∈ SchemaScan.Len.closers c', t.WF) ∧
+    ∃ c'' evs', SchemaScan.Len.trun SchemaScan.Len.TC.init (toks ++ SchemaScan.Len.closers c') = some (c'', evs ++ evs') ∧
+      SchemaScan.Len.Complete c'' :=
+  SchemaScan.Len.trun_viable toks hw c' evs h
+
+/-- **lifted through the simulation: the byte text of an accepted token list is a viable prefix** — the scanner model
+accepts it followed by the closing text `closerBytes c'` (`1`, `"a":1`, `:1`, `}`, `]`) -/
+theorem C17_schema_token_prefix_viable (toks : List SchemaScan.Len.ATok) (hw : ∀ t ∈ toks, t.WF) (c' : SchemaScan.Len.TC)
+    (evs : List SchemaScan.Ev) (h : SchemaScan.Len.arun SchemaScan.Len.TC.init toks = some (c', evs))
+    (bs : List UInt8) (hbs : bs.map SchemaScan.classify = SchemaScan.Len.renderAToks toks) :
+    ∃ evs', SchemaScan.scanAll (bs ++ SchemaScan.Len.closerBytes c') = .ok evs' :=
+  SchemaScan.bytes_viable toks hw c' evs h bs hbs
+
+/-- **C17 (2), proved part**: an error whose offending byte stands at a TOKEN BOUNDARY — the text before it is the text of
+a token list accepted by the token-level scanner (this excludes the class K-C17-comment-in-inline-annotation, whose
+texts are not token lists: a comment inside an annotation object is not a token) — has a completable prefix. The
+general statement `C17_schema_error_prefix_viable_full` is false (`C17_schema_error_prefix_viable_full_false`). -/
+theorem C17_schema_error_prefix_viable_partial (bs : List UInt8) (e : SchemaScan.Err)
+    (_h : SchemaScan.scanAll bs = .error e) (toks : List SchemaScan.Len.ATok) (hw : ∀ t ∈ toks, t.WF)
+    (c' : SchemaScan.Len.TC) (evs : List SchemaScan.Ev)
+    (hrun : SchemaScan.Len.arun SchemaScan.Len.TC.init toks = some (c', evs))
+    (hbs : (bs.take e.idx).map SchemaScan.classify = SchemaScan.Len.renderAToks toks) :
+    ∃ ext : List UInt8, ∃ evs', SchemaScan.scanAll (bs.take e.idx ++ ext) = .ok evs' :=
+  ⟨SchemaScan.Len.closerBytes c', SchemaScan.bytes_viable toks hw c' evs hrun _ hbs⟩
+
+/-- non-vacuity: behind `[1, {"a":` the closing text is `1}]` and `[1, {"a":1}]` is accepted; `[x` is rejected at offset 1
+behind the accepted token `[`, and `[` ++ `]` is accepted -/
+example := SchemaScan.ErrEx.ex_closers3
+example := SchemaScan.ErrEx.ex_viable3
+example : ∃ ext : List UInt8, ∃ evs', SchemaScan.scanAll (([91, 120] : List UInt8).take 1 ++ ext) = .ok evs' :=
+  C17_schema_error_prefix_viable_partial [91, 120] _ SchemaScan.ErrEx.ex_brack_x [.base .lbrack] (by simp [SchemaScan.Len.ATok.WF, SchemaScan.Len.Tok.WF])
+    _ _ rfl rfl
+
+/-- **C17 (1), the EXACT look-ahead window** (the statement `C17_schema_error_exact_window_full` of the first part, now a
+theorem): a structured error other than "unexpected end of file" at offset `i` is reproduced on every input that has
+the same bytes (and the same end of input) at the offsets `0 … i` — window 0 — except that the error "after first #"
+(`##` not followed by a third `#`) also needs the byte behind `i` not to be `#` — window 1. Behind it stands the
+per-state look-ahead lemma (`SchemaLookAhead`: only `anyCommentStart` on `#`, `multiLineComment` on `#` and `mlTxt` on `*`
+consult `data[index]` / `data[index+1]`; `dispatch_la_plain / _star1 / _star2 / _hash1 / _hash2`). -/
+theorem C17_schema_error_exact_window : C17_schema_error_exact_window_full :=
+  fun bs e h he bs' hA hW => SchemaScan.scanAll_error_exact bs e h he bs' hA hW
+
+/-- the same in the form "cut the text behind the exact window and continue it by anything" -/
+theorem C17_schema_error_window_exact (bs : List UInt8) (e : SchemaScan.Err) (h : SchemaScan.scanAll bs = .error e)
+    (he : e.isEOF = false) (hw : e.idx + 1 + e.window ≤ bs.length) (ext : List UInt8) :
+    SchemaScan.scanAll (bs.take (e.idx + 1 + e.window) ++ ext) = .error e :=
+  SchemaScan.scanAll_error_window_exact bs e h he hw ext
+
+/-- non-vacuity: `x` (window 0: `x` ++ anything) and `##xy` (window 1: `##x` ++ anything) -/
+example (ext : List UInt8) : SchemaScan.scanAll ([120] ++ ext) = .error (.invalidChar 0 "looking for beginning of value") :=
+  C17_schema_error_window_exact [120] _ SchemaScan.ErrEx.ex_x rfl (by decide) ext
+example (ext : List UInt8) : SchemaScan.scanAll ([35, 35, 120] ++ ext) = .error (.invalidChar 1 "after first #") :=
+  C17_schema_error_window_exact [35, 35, 120, 121] _ SchemaScan.ErrEx.ex_hash rfl (by decide) ext
+
+/-- the error with window 1 ("after first #") stands in front of a byte other than `#`, or of the end of input -/
+theorem C17_schema_window_next (bs : List UInt8) (e : SchemaScan.Err) (h : SchemaScan.scanAll bs = .error e)
+    (hw : e.window = 1) : bs[e.idx + 1]? ≠ some 35 :=
+  SchemaScan.scanAll_window_next bs e h hw
+
+/-- **C17 (3), any cut of an accepted text, exactly** (the statement `C17_schema_prefix_of_accepted_full` of the first part,
+now a theorem; corollary of the exact window): a prefix of an accepted text is accepted, or rejected AT ITS LAST BYTE —
+"unexpected end of file", or an invalid-character error there (a prefix ending in `##`). -/
+theorem C17_schema_prefix_of_accepted : C17_schema_prefix_of_accepted_full :=
+  fun t evs ht n e h => SchemaScan.scanAll_prefix_of_accepted_exact t evs ht n e h
+
+/-- non-vacuity: `[1, {"a":1}]` is accepted (`ex_viable3`), its cut `[1, {"a":` of length 9 is rejected (`ex_eof`) — at
+offset 8; and the window-1 error at the last byte of a text: `##` -/
+example : ∀ e, SchemaScan.scanAll ((SchemaScan.Len.Ex.b "[1, {\"a\":" ++ SchemaScan.Len.Ex.b "1}]").take 9) = .error e →
+    e.idx = 8 := by
+  obtain ⟨evs, h⟩ := SchemaScan.ErrEx.ex_viable3
+  intro e he
+  exact C17_schema_prefix_of_accepted _ evs h 9 e he
+example : (SchemaScan.Len.Ex.b "[1, {\"a\":" ++ SchemaScan.Len.Ex.b "1}]").take 9 = SchemaScan.Len.Ex.b "[1, {\"a\":" := by
+  decide
+example : SchemaScan.scanAll [35, 35] = .error (.invalidChar 1 "after first #") :=
+  C17_schema_error_exact_window [35, 35, 120, 121] _ SchemaScan.ErrEx.ex_hash rfl [35, 35]
+    (fun k hk => by
+      have : k = 0 ∨ k = 1 := by simp [SchemaScan.Err.idx] at hk; omega
+      rcases this with rfl | rfl <;> rfl)
+    (fun _ => by simp [SchemaScan.Err.idx])
+
+end schema2
+end Props.C17
+
+#print axioms Props.C17.C17_schema_error_prefix_viable_full_false
+#print axioms Props.C17.C17_schema_witness_prefix_dead
+#print axioms Props.C17.C17_token_level_viable
+#print axioms Props.C17.C17_token_level_viable_trun
+#print axioms Props.C17.C17_schema_token_prefix_viable
+#print axioms Props.C17.C17_schema_error_prefix_viable_partial
+#print axioms Props.C17.C17_schema_error_exact_window
+#print axioms Props.C17.C17_schema_error_window_exact
+#print axioms Props.C17.C17_schema_window_next
+#print axioms Props.C17.C17_schema_prefix_of_accepted
